@@ -698,7 +698,7 @@ func (w *Worker) intrinsic(s *State, f *Frame, name string, fn *ssa.Function, ar
 		j.stub("error-constructor")
 		return adv(Iface{t: opaqueErrType, v: Opaque{"error"}})
 	case name == "fmt.Sprintf", name == "fmt.Sprint", name == "fmt.Sprintln":
-		if name == "fmt.Sprintf" && ghostInt(s, "flag/memfs") != 0 {
+		if name == "fmt.Sprintf" && (ghostInt(s, "flag/memfs") != 0 || ghostInt(s, "flag/fold-sprintf") != 0) {
 			if v, ok := w.hostSprintf(s, args); ok {
 				return adv(v)
 			}
